@@ -41,14 +41,11 @@ def run(cx):
             'zone-key-flag': r'^DNSKEY::zone_key\(RecordRef::data\(arg4\)\)$',
             'all-records-iterated': r'^!ok\(<slice::Iter<.*> as iter::Iterator>::next\(slice::iter\(arg3\.records\)\)\)$',
         }
+        # class IN for *every* record (loop, !any or all idiom)
+        req.pop('all-records-iterated')
         cx.guard('C06.G1', sites, req, expect=1, fn=f)
-        # class IN for *every* record: the loop's only way back to the head is the eq edge
-        body = [s for bb in range(len(f.blocks)) for s, ps in f.edge_props(bb).items()
-                if any(re.search(r'^ok\(<slice::Iter<.*> as iter::Iterator>::next\(slice::iter\(arg3\.records\)\)\)$', shorten(p)) for p in ps)]
-        cx.check('C06.G1', len(body) == 1, f.path, 'loop', 'record-loop-shape', f'{len(body)} loop-body entries over rrset.records')
-        if body:
-            cx.must_pass('C06.G1', f, sites, via_edge=r'^eq:DNSClass\(.*@Some\.0\.dns_class,DNSClass::IN\)$|^eq:DNSClass\(DNSClass::IN,.*@Some\.0\.dns_class\)$',
-                         start_blocks=body, what='every-record-class-IN')
+        cx.forall('C06.G1', f, sites, r'arg3\.records', r'^eq:DNSClass\(.*dns_class,DNSClass::IN\)$|^eq:DNSClass\(DNSClass::IN,.*dns_class\)$',
+                  'every-record-class-IN')
 
     # ---------------- G2: verify_rrset_with_dnskey
     f = cx.fn('C06.G2', N + 'verify_rrset_with_dnskey')
